@@ -826,7 +826,7 @@ fn run() {
         let _ = rep.finish();
         return;
     }
-    let n = params.n(60, 1500);
+    let n = params.n(200, 4000);
     for i in 0..n {
         if !rep.in_budget() {
             break;
